@@ -175,7 +175,8 @@ def _shards(singles, pairs, ops, extras):
 _X = [{'f1': None, 'f2': None, 'mode': 'disabled'}, {'f1': None, 'f2': None, 'mode': 'skipped'},
       {'f1': None, 'f2': None, 'fail_save': True}, {'f1': 'unser_value', 'f2': None, 'copy': True}]
 _QS = _shards([None, 'key_arg', 'in_handler', 'out_handler', 'unser_value', 'discard_body'],
-              [('key_arg', 'discard_op')], _QOPS, _X)
+              [('key_arg', 'discard_op')], _QOPS, _X) + [{'f1': 'key_resolver', 'f2': None, 'first': _o('R')},
+                                                         {'f1': 'force_body', 'f2': None, 'first': _o('A', 1)}]
 _TS = _shards([None] + FAULT_KINDS, [(a, b) for a in FAULT_KINDS for b in FAULT_KINDS if a < b], _TOPS,
               _X + [{'f1': 'key_arg', 'f2': None, 'fail_save': True}, {'f1': 'discard_body', 'f2': None, 'copy': True}])
 _W = {'f1': 'key_arg', 'f2': None, 'first': _o('A', 1)}
